@@ -158,7 +158,8 @@ func main() {
 }
 
 // runAllProps is a development aid for the sweeps over the corpora of refactorings and mutants: the verdict of every
-// property on one tree, computed by one process (the tree is loaded and built once). It is no manifest command; the
+// property on one tree, computed by one process (each universe is loaded and built once; every property gets a World
+// of its own, so that its rules see the universes exactly as in a process of their own). It is no manifest command; the
 // registered checks run one property per process.
 func runAllProps(repo, dir, knownPath string) {
 	if knownPath == "" {
@@ -166,7 +167,7 @@ func runAllProps(repo, dir, knownPath string) {
 		knownPath = filepath.Join(filepath.Dir(filepath.Dir(self)), "known_findings.json")
 	}
 	_ = os.MkdirAll(dir, 0o755)
-	w := newWorld(repo, false)
+	shared := map[string]*Universe{}
 	controls := runControls()
 	kf := loadKnown(knownPath)
 	var ids []string
@@ -181,6 +182,13 @@ func runAllProps(repo, dir, knownPath string) {
 		}
 		spec := registry[id]
 		start := time.Now()
+		// a World of its own per property, as in the one-property-per-process mode: which universe a rule sees
+		// (World.Client) depends on what this property has loaded so far, not on what other properties loaded
+		w := newWorld(repo, false)
+		w.shared = shared
+		if spec.NeedsServer {
+			w.Server()
+		}
 		r := newReport(spec.ID)
 		ran := map[uintptr]bool{}
 		for _, rule := range spec.Rules {
